@@ -283,6 +283,43 @@ class PathInfoRoundTrip(Contract):
     ensures = {'rt1+rt2.path_info': lambda pre, post: PathInfoRoundTrip._c(pre, post)}
 
 
+class PathInfoRoundTripShapes(PathInfoRoundTrip):
+    """the same round trip with the two hop lists given as real lists (absent, empty, one or two hops, independently per
+    direction) instead of opaque list values: decides the clause also for code that looks INTO the lists (derives one
+    direction from the other, reverses, copies ...), where the opaque form above can only answer `unsupported`"""
+    bounded = 'hop lists of length <= 2 per direction (the contract above covers every list as long as the code treats it as a whole)'
+
+    def inputs(self, g):
+        cls = g.pick([PathInfo, ERO], 'class')
+
+        def hops(nm):
+            k = g.pick([None, 0, 1, 2], f'{nm}: absent / number of hops')
+            return None if k is None else PList([g.str(f'{nm}{i}') for i in range(k)])
+        f = {'type': PathRepresentationType.Path, 'payload': PObj(Path, {'a2z': hops('a2z'), 'z2a': hops('z2a')})}
+        if cls is ERO:
+            f['strict'] = g.bool('strict')
+        return [PObj(cls, f)], {}
+
+    @staticmethod
+    def _c(pre, post):
+        if not returned(post):
+            return False
+        x = pre.args[0]
+        s, y, s2 = post.result
+        if y is None:
+            return False
+
+        def same_list(a, b):
+            if a is None or b is None:
+                return a is None and b is None
+            return And(is_list(a), is_list(b), eq(a, b))
+        return And(fld(y, 'type') is fld(x, 'type'), eq(s2, s),
+                   same_list(fld(fld(y, 'payload'), 'a2z'), fld(fld(x, 'payload'), 'a2z')),
+                   same_list(fld(fld(y, 'payload'), 'z2a'), fld(fld(x, 'payload'), 'z2a')))
+
+    ensures = {'rt1+rt2.path_info_hop_lists': lambda pre, post: PathInfoRoundTripShapes._c(pre, post)}
+
+
 DT_SAMPLES = [None, _dt.datetime(2024, 2, 29, 23, 59, 59), _dt.datetime(2024, 7, 1, 12, 0, 0, 123456, tzinfo=_dt.timezone.utc),
               _dt.datetime(2025, 1, 1, 0, 0, 0, tzinfo=_dt.timezone(_dt.timedelta(hours=5, minutes=30))),
               _dt.datetime(2023, 12, 31, 20, 15, tzinfo=_dt.timezone(_dt.timedelta(hours=-4)))]
@@ -425,7 +462,7 @@ class MaintenanceCopyIndependent(Contract):
     ensures = {'copy.editable_and_original_untouched': lambda pre, post: MaintenanceCopyIndependent._c(pre, post)}
 
 
-for _c in (GatewayRoundTrip, GatewayNothingSet, PathInfoRoundTrip, MaintenanceRoundTrip, MaintenanceFinalized, MaintenanceCopyIndependent):
+for _c in (GatewayRoundTrip, GatewayNothingSet, PathInfoRoundTrip, PathInfoRoundTripShapes, MaintenanceRoundTrip, MaintenanceFinalized, MaintenanceCopyIndependent):
     CONTRACTS.append(_c)
 
 # Labels / Tags / JSON blob codecs are verified by the contracts they share with C16
